@@ -17,6 +17,7 @@ structure CliInput where
   stdin : Bytes
   stdoutIsTty : Bool
   importable : Bool                -- a dotted --factory path outside the shortcuts imports to an image factory
+  importedAliases : List String    -- ... and these are the drawer aliases of that factory class
   deriving Repr
 
 inductive Sink | file (path : String) | stdout
@@ -32,13 +33,13 @@ inductive CliOutcome where
 def resolveFactory (f : String) : String := (Gen.CLI_FACTORIES.lookup f).getD f
 
 /-- drawer aliases of the resolved factory (only the built-in SVG factories have any) -/
-def drawerAliases (f : Option String) : List String :=
+def drawerAliases (f : Option String) (imported : List String := []) : List String :=
   match f with
   | none => []
   | some f =>
     match Gen.CLI_FACTORIES.find? fun (k, path) => k == f || path == f with
     | some (k, _) => (Gen.CLI_DRAWER_ALIASES.lookup k).getD []
-    | none => []
+    | none => imported
 
 /-- the factory option is acceptable: a shortcut, or a dotted path that imports -/
 def factoryOK (i : CliInput) : Bool :=
@@ -52,7 +53,7 @@ def factoryOK (i : CliInput) : Bool :=
 def drawerOK (i : CliInput) : Bool :=
   match i.drawer with
   | none => true
-  | some d => (drawerAliases i.factory).contains d
+  | some d => (drawerAliases i.factory i.importedAliases).contains d
 
 /-- the payload: the argument if present, else all of standard input -/
 def payloadOf (i : CliInput) : Bytes := i.arg.getD i.stdin
